@@ -48,7 +48,11 @@ class TSA:
                  ["openssl", "req", "-newkey", "rsa:2048", "-nodes", "-keyout", "tsa.key", "-out", "tsa.csr", "-subj", "/CN=c05 TSA", "-config", self.cnf],
                  ["openssl", "x509", "-req", "-in", "tsa.csr", "-CA", "tsaca.crt", "-CAkey", "tsaca.key", "-CAcreateserial", "-out", "tsa.crt", "-days", "3650", "-extfile", self.cnf, "-extensions", "ext_tsa"]]
         for c in steps:
-            p = q(c)
+            try:
+                p = q(c)
+            except OSError as e:       # openssl not installed: no TSA, the timestamp scenarios are skipped (recorded in the evidence)
+                self.error = "%s: %s" % (" ".join(c[:3]), e)
+                return
             if p.returncode != 0:
                 self.error = "%s: %s" % (" ".join(c[:3]), p.stderr.decode(errors="replace")[-300:])
                 return
